@@ -855,7 +855,77 @@ class Ctor(Suite):
         return case["n"] >= 1 and len(case["cols"]) >= 1
 
 
-SUITES = [Pipeline(), CopyingFrames(), Ctor()]
+class FromDataFrame(Suite):
+    """Tree.from_data_frame(df): columns, dtypes, values, and which column of the tree shares storage with which column array of the frame"""
+    name = "c03.fromdf"
+    case_timeout = 20
+
+    def cases(self, rng, tier, widen):
+        out = []
+        for _ in range(100 if (tier == "thorough" or widen) else 30):
+            n = rng.choice([1, 2, 3, 4, 6])
+            keys = list(STD) + [k for k in ("foo", "bar") if rng.random() < 0.4]
+            if rng.random() < 0.15:
+                keys.remove(rng.choice(list(STD)))          # a frame without one of the standard columns: KeyError
+            rng.shuffle(keys)
+            cols = []
+            for k in keys:
+                tag = STD.get(k, 3) if rng.random() < 0.7 else rng.randrange(4)
+                cols.append([k, tag, [rng.randint(-1, 9) for _ in range(n)]])
+            out.append({"class": f"n{min(n, 3)}/cols{len(keys)}", "n": n, "cols": cols})
+        return out
+
+    def run(self, case):
+        import pandas as pd
+        from swcgeom.core import Tree
+
+        df = pd.DataFrame({k: np.array(vals, dtype=DT[tag]) for k, tag, vals in case["cols"]})
+        ins = {k: df[k].to_numpy() for k in df.columns}
+        keep = df.copy()
+        try:
+            t = Tree.from_data_frame(df)
+        except Exception as e:  # noqa: BLE001
+            return {"ctor_exc": type(e).__name__, "msg": str(e)[:160]}
+        names = list(ins)
+        res = {"ndata": [], "inputs_same": bool(df.equals(keep))}
+        for k, a in t.ndata.items():
+            sh = [j for j, kk in enumerate(names) if np.shares_memory(a, ins[kk])]
+            res["ndata"].append([k, DT.index(str(a.dtype)) if str(a.dtype) in DT else -1, sh, [int(x) for x in a.tolist()]])
+        return res
+
+    def lines(self, case, res):
+        a = f"gfromdf n={case['n']} keys={','.join(c[0] for c in case['cols'])}" + "".join(
+            f" {k}={gen.ints(v)} {k}_t={tag}" for k, tag, v in case["cols"])
+        if "ctor_exc" in res:
+            return [(a, "E")]
+        # the definition generated from Tree.from_data_frame (on the generated Tree.__init__ / padding1d) on this run
+        return [(a, " ; ".join(f"{k}:{dt}:{'-' if not vals else sh[0] if len(sh) == 1 else 'n' if not sh else 'many'}:{gen.ints(vals)}" for k, dt, sh, vals in res["ndata"]))]
+
+    def oracle(self, case, res):
+        missing = [k for k in STD if k not in [c[0] for c in case["cols"]]]
+        if "ctor_exc" in res:
+            return [] if missing else [("fromdf-raises", f"from_data_frame raised {res['ctor_exc']}: {res['msg']}")]
+        out = []
+        if missing:
+            out.append(("fromdf-missing-column", f"a frame without {missing} was accepted"))
+        if not res["inputs_same"]:
+            out.append(("fromdf-writes-input", "from_data_frame changed the frame it was given"))
+        given = {k: (j, tag, vals) for j, (k, tag, vals) in enumerate(case["cols"])}
+        for k, dt, sh, vals in res["ndata"]:
+            if k not in given:
+                continue
+            j, tag, g = given[k]
+            want_dt = STD.get(k, tag)
+            alias = [j] if tag == want_dt else []
+            if dt != want_dt or vals != g or sorted(sh) != alias:
+                out.append((f"fromdf-column/{k}", f"column {k}: dtype {dt}, {vals}, shares {sh}; expected dtype {want_dt}, {g}, shares {alias}"))
+        return out[:3]
+
+    def nontrivial(self, case, res):
+        return "ctor_exc" not in res
+
+
+SUITES = [Pipeline(), CopyingFrames(), Ctor(), FromDataFrame()]
 TECHNIQUE = ("Lean 4 theorem by induction over operation lists: each topology-level operation model (sort, subtree, prune, re-root, geometric, round trip, and — C03Cat — cat_tree with an arbitrary second tree in both translate modes) maps a "
              "well-formed parent list to a well-formed one (sorted where documented), built from the theorems of C05/C06/C07 and the representation lemma; heap-level "
              "freshness from C09 + pipelines of the real operations with well-formedness, input hashes and np.shares_memory checked after every step: random "
